@@ -36,7 +36,7 @@ ENUM = {
     "thorough": [("Gen_Win_all2.cfg", None), ("Gen_Win_q.cfg", None), ("Gen_Win_m14.cfg", 3000), ("Gen_Win_m16.cfg", 3000),
                  ("Gen_Win_m25.cfg", 3000), ("Gen_Win_m36.cfg", 3000), ("Gen_Win_m27.cfg", 3000)],
 }
-SIZES = {"quick": dict(n=40, nbig=2, shards=4), "thorough": dict(n=2500, nbig=25, shards=4)}
+SIZES = {"quick": dict(n=40, nbig=4, nmulti=12, shards=4), "thorough": dict(n=2500, nbig=27, nmulti=600, shards=4)}
 
 
 def _scale(x):
@@ -96,11 +96,11 @@ def _enumerate(ctx, plan):
     return {"alphabet": alphabet, "sets": sets, "layouts": layouts}, info
 
 
-def _generate(ctx, beh_path, n, nbig, out, classes=None):
+def _generate(ctx, beh_path, n, nbig, out, classes=None, nmulti=0):
     binp = core.go_build("winpol")
     env = core.goenv()
     env.update({"VERIF_SEED": str(ctx.seed), "VERIF_N": str(n), "VERIF_NBIG": str(nbig), "VERIF_BEH": beh_path or "",
-                "VERIF_OUT": out, "VERIF_CLASSES": classes or ""})
+                "VERIF_OUT": out, "VERIF_CLASSES": classes or "", "VERIF_NMULTI": str(nmulti)})
     p = core.run([binp], env=env, timeout=900, check=False)
     if p.returncode != 0 or not os.path.exists(out):
         raise HarnessError("winpol generator failed:\n%s" % (p.stdout or "")[-3000:])
@@ -206,11 +206,12 @@ def _confirm(ctx, cids, rerun_lines):
             raise HarnessError("rejection of case %s did not reproduce on re-execution" % cid)
 
 
-def run(ctx, n=None, nbig=None, enum=None, classes=None, corrupt=None):
+def run(ctx, n=None, nbig=None, enum=None, classes=None, corrupt=None, nmulti=None):
     tier = "quick" if ctx.quick else "thorough"
     sz = SIZES[tier]
     n = _scale(sz["n"]) if n is None else n
     nbig = sz["nbig"] if nbig is None else nbig
+    nmulti = _scale(sz["nmulti"]) if nmulti is None else nmulti
     plan = ENUM[tier] if enum is None else enum
     classes = classes or os.environ.get("VERIF_C30_CLASSES") or None      # development knob: random classes to generate
 
@@ -224,7 +225,7 @@ def run(ctx, n=None, nbig=None, enum=None, classes=None, corrupt=None):
     cases = os.path.join(ctx.work, "cases.ndjson")
     trace = os.path.join(ctx.work, "trace.ndjson")
     t0 = time.time()
-    _generate(ctx, beh_path if beh["layouts"] else None, n, nbig, cases, classes)
+    _generate(ctx, beh_path if beh["layouts"] else None, n, nbig, cases, classes, nmulti)
     t1 = time.time()
     _execute(ctx, cases, trace)
     log("stages: enumerate %.0fs, generate %.0fs, build+execute real code %.0fs" % (t0 - ctx.t0, t1 - t0, time.time() - t1))
@@ -236,8 +237,8 @@ def run(ctx, n=None, nbig=None, enum=None, classes=None, corrupt=None):
         c = json.loads(l)
         parsed[c["case"]] = c
         by_id[c["case"]] = l
-    log("%d cases executed by the real code (%d enumerated, %d random, %d chunking)"
-        % (len(lines), len(beh["layouts"]), n, nbig))
+    log("%d endpoint renderings by the real code (%d enumerated layouts, %d random, %d chunking, %d multi-endpoint scenarios)"
+        % (len(lines), len(beh["layouts"]), n, nbig, nmulti))
 
     t0 = time.time()
     stats, rejects = _bulk_validate(ctx, lines, sz["shards"])
@@ -258,7 +259,7 @@ def run(ctx, n=None, nbig=None, enum=None, classes=None, corrupt=None):
         sub = os.path.join(ctx.work, "cases-rerun.ndjson")
         with open(sub, "w") as f:
             for l in open(cases):
-                if l.strip() and json.loads(l)["case"] in reps:
+                if l.strip() and json.loads(l)["case"] in {parsed[cid].get("src", cid) for cid in reps}:
                     f.write(l)
         if corrupt is None:
             t2 = os.path.join(ctx.work, "trace-rerun.ndjson")
